@@ -36,6 +36,17 @@ def affine(case):
                     if np.shape(J) != np.shape(want) or not np.allclose(J, want, rtol=1e-6, atol=1e-8):
                         bad.append(dict(cls=klass, m=m, n=n, k=k, method=method, shape=np.shape(J), expected_shape=np.shape(want),
                                         got=np.asarray(J).ravel()[:4].tolist(), expected=np.asarray(want).ravel()[:4].tolist()))
+        # a user-supplied step generator with another ratio, on a function with curvature: the rule must be built for the
+        # ratio of the steps actually used
+        g = lambda x: np.array([np.exp(0.5 * x[0]) * x[1], np.sin(x[0]) + x[1] ** 3])
+        Jg = lambda x: np.array([[0.5 * np.exp(0.5 * x[0]) * x[1], np.exp(0.5 * x[0])], [np.cos(x[0]), 3 * x[1] ** 2]])
+        xg = np.array([0.4, 1.3])
+        for ratio in (1.6, 3.0, 4.0):
+            for method in sorted({case['method'], 'central', 'forward'} - {'multicomplex'}):
+                for order in (2, 4):
+                    J = nd.Jacobian(g, step=nd.MinStepGenerator(step_ratio=ratio, num_steps=8 + order), method=method, order=order)(xg)
+                    if not np.allclose(J, Jg(xg), rtol=1e-5, atol=1e-6):
+                        bad.append(dict(cls='Jacobian', step_ratio=ratio, method=method, order=order, got=np.asarray(J).ravel().tolist(), expected=Jg(xg).ravel().tolist()))
     return dict(reproduced=bool(bad), failing=bad[:4], statement='Jacobian of an affine map is its matrix, shape (m, n) / (m, n, k); Gradient shape (n,)')
 
 
